@@ -158,7 +158,9 @@ public:
         auto fi = QFileInfo(q_ptr->file()->fileName());
         const auto baseName = fi.completeBaseName();
         const auto suffix = fi.suffix();
-        const auto dateStr = date.toString(QStringLiteral("yyyy-MM-dd"));
+        // yyyy-MM-dd in ASCII digits whatever the system locale is (a format string would be
+        // rendered with the locale's digits, which the \d of findRotatedFiles() does not match)
+        const auto dateStr = date.toString(Qt::ISODate);
 
         QString rotatedName;
         if (suffix.isEmpty()) {
@@ -176,7 +178,9 @@ public:
         auto fi = QFileInfo(q_ptr->file()->fileName());
         const auto baseName = fi.completeBaseName();
         const auto suffix = fi.suffix();
-        const auto dateStr = date.toString(QStringLiteral("yyyy-MM-dd"));
+        // yyyy-MM-dd in ASCII digits whatever the system locale is (a format string would be
+        // rendered with the locale's digits, which the \d of findRotatedFiles() does not match)
+        const auto dateStr = date.toString(Qt::ISODate);
 
         QString pattern;
         if (suffix.isEmpty()) {
